@@ -140,6 +140,14 @@ func CheckCall(sc *Scenario, v *CallView, rs RuleSet, em int) []Violation {
 	// --- a forRange loop key is a local too (C15)
 	for _, x := range v.Execs {
 		for _, e := range x.Own {
+			if e.Kind == EvObj {
+				rd := sc.Rule(x.Rule)
+				if rd != nil && rd.Has(SecLocObjReader) {
+					add("unassigned-local-visible", "method-on-local", fmt.Sprintf("%s: rule %d called a method on local lo, which it never assigned (it reached object %d)", c, x.Rule, e.C))
+				} else if e.C != int64(x.Rule)+500 {
+					add("local-changed-by-other-execution", "method-on-local", fmt.Sprintf("%s: rule %d keeps its own object (%d) in local lo, the method call reached object %d", c, x.Rule, x.Rule+500, e.C))
+				}
+			}
 			if e.Kind == EvKey && e.C != int64(x.Rule)+700 {
 				add("local-changed-by-other-execution", "forRange-key", fmt.Sprintf("%s: rule %d iterates its own one-entry map (key %d) and its loop body saw key %d", c, x.Rule, x.Rule+700, e.C))
 			}
